@@ -19,6 +19,7 @@ CONSTANTS NAtoms,      \* atoms 0..NAtoms-1
           SiteOps,     \* operations a site may be declared with
           ChildOps,    \* operations of dict children ("deq","dle","dge")
           WrongOps,    \* operations used as a second, conflicting operation
+          ChgOK,       \* programs may re-evaluate a call with a changed hand-written argument
           NSites, NTests, MaxStmts,
           MaxRuns,     \* sessions per behaviour (mode mc)
           MaxSrcLen,   \* entries of an "in"/dict source
@@ -40,13 +41,17 @@ OwnStmts(i, o) ==
   ELSE IF o = "dict" THEN [site : {i}, assert : BOOLEAN, op : ChildOps, k : Keys, x : Atoms]
   ELSE [site : {i}, assert : BOOLEAN, op : {o}, k : {0}, x : Atoms]
 WrongStmts(i, o) == {[site |-> i, assert |-> FALSE, op |-> w, k |-> 0, x |-> 0] : w \in {w \in WrongOps : KindOfStmtOp(w) # o}}
-Stmts(ops) == UNION {OwnStmts(i, ops[i]) \cup (IF ops[i] = "none" THEN {} ELSE WrongStmts(i, ops[i])) : i \in DOMAIN ops}
-IsWrong(ops, s) == s.op # "none" /\ KindOfStmtOp(s.op) # ops[s.site]
+ChgStmts(i) == IF ChgOK THEN {[site |-> i, assert |-> FALSE, op |-> "chg", k |-> 0, x |-> 0]} ELSE {}
+Stmts(ops) == UNION {OwnStmts(i, ops[i]) \cup (IF ops[i] = "none" THEN {} ELSE WrongStmts(i, ops[i]) \cup ChgStmts(i)) : i \in DOMAIN ops}
+IsWrong(ops, s) == s.op \notin {"none", "chg"} /\ KindOfStmtOp(s.op) # ops[s.site]
 \* a conflicting operation is only used after an own operation of the same site in the same test
-ValidTest(ops, t) == \A j \in DOMAIN t : IsWrong(ops, t[j]) =>
-                        \E i \in 1..(j - 1) : t[i].site = t[j].site /\ ~IsWrong(ops, t[i]) /\ t[i].op # "none"
+ValidTest(ops, t) == \A j \in DOMAIN t : (IsWrong(ops, t[j]) \/ t[j].op = "chg") =>
+                        \E i \in 1..(j - 1) : t[i].site = t[j].site /\ ~IsWrong(ops, t[i]) /\ t[i].op \notin {"none", "chg"}
 Tests(ops) == {t \in UNION {[1..m -> Stmts(ops)] : m \in 1..MaxStmts} : ValidTest(ops, t)}
 Progs(ops) == [1..NTests -> Tests(ops)]
+\* only a hand-written argument can change its value between evaluations
+ChgFits(ss, p) == \A t \in DOMAIN p : \A j \in DOMAIN p[t] :
+                     p[t][j].op = "chg" => (ss[p[t][j].site].def /\ \E e \in DOMAIN ss[p[t][j].site].e : ~ss[p[t][j].site].e[e].canon)
 
 VARIABLES ops, srcs, prog, runs
 vars == <<ops, srcs, prog, runs>>
@@ -66,18 +71,22 @@ Pick == /\ Mode = "mc" /\ prog = <<>>
         /\ \E n \in 1..Len(SetToSeq(Progs(ops))) :
               /\ (n + GroupId) % Stride = Offset % Stride
               /\ prog' = SetToSeq(Progs(ops))[n]
+              /\ ChgFits(srcs, prog')
         /\ UNCHANGED <<ops, srcs, runs>>
 Sess == /\ Mode = "mc" /\ prog # <<>> /\ runs < MaxRuns
         /\ \E F \in SUBSET Cats : srcs' = Run(srcs, prog, F).srcs
         /\ runs' = runs + 1 /\ UNCHANGED <<ops, prog>>
-Next == Pick \/ Sess
+\* emission modes: one dummy step, so that the Emit* invariants (guarded by runs = 1) are evaluated by the
+\* workers in parallel instead of by the single thread that computes the initial states
+Go == /\ Mode # "mc" /\ runs = 0 /\ runs' = 1 /\ UNCHANGED <<ops, srcs, prog>>
+Next == Pick \/ Sess \/ Go
 Spec == Init /\ [][Next]_vars
 
 -----------------------------------------------------------------------------
 (* ---------- what the properties talk about ---------- *)
 \* truth of statement s against the plain value of source src (src.def)
 HoldsStmt(s, src) ==
-  CASE s.op = "none" -> TRUE
+  CASE s.op \in {"none", "chg"} -> TRUE
     [] s.op \in ScalarOps -> HoldsScalar(s.op, src.e[1].v, s.x)
     [] s.op = "in" -> s.x \in Rng(ValsOf(src.e))
     [] OTHER -> HasKey(src.e, s.k) /\ HoldsScalar(CASE s.op = "deq" -> "eq" [] s.op = "dle" -> "le" [] s.op = "dge" -> "ge",
@@ -86,7 +95,7 @@ HoldsStmt(s, src) ==
 Exec(R) == {p \in (DOMAIN prog) \X (1..MaxStmts) : p[2] <= Len(R.tests[p[1]].res)}
 StmtAt(p) == prog[p[1]][p[2]]
 ResAt(R, p) == R.tests[p[1]].res[p[2]]
-OnSite(R, i) == {p \in Exec(R) : StmtAt(p).site = i /\ ResAt(R, p) \notin {"TE", "-"}}
+OnSite(R, i) == {p \in Exec(R) : StmtAt(p).site = i /\ ResAt(R, p) \notin {"TE", "UE", "-"}}
 \* a test that contradicts itself: one == snapshot (or one == child) compared with different values
 Contradictory(R, i) ==
    \E p, q \in OnSite(R, i) : /\ StmtAt(p).op \in {"eq", "deq"} /\ StmtAt(q).op = StmtAt(p).op
@@ -97,23 +106,29 @@ Before(q, p) == q[1] < p[1] \/ (q[1] = p[1] /\ q[2] < p[2])
 FirstOf(Q) == CHOOSE q \in Q : \A q2 \in Q : q = q2 \/ Before(q, q2)
 ExpectTE(R, p) ==
   LET s == StmtAt(p)
-      Q == {q \in Exec(R) : StmtAt(q).site = s.site /\ StmtAt(q).op # "none"}
+      Q == {q \in Exec(R) : StmtAt(q).site = s.site /\ StmtAt(q).op \notin {"none", "chg"}}
       f == StmtAt(FirstOf(Q))
       QK == {q \in Q : KindOfStmtOp(StmtAt(q).op) = "dict" /\ StmtAt(q).k = s.k}
-  IN s.op # "none" /\ (\/ KindOfStmtOp(s.op) # KindOfStmtOp(f.op)
-                       \/ KindOfStmtOp(s.op) = "dict" /\ s.op # StmtAt(FirstOf(QK)).op)
+  IN /\ s.op \notin {"none", "chg"}
+     /\ \/ KindOfStmtOp(s.op) # KindOfStmtOp(f.op)
+        \/ KindOfStmtOp(s.op) = "dict" /\ s.op # StmtAt(FirstOf(QK)).op
 
-(* C07: a wrong or missing snapshot never yields a green test, a correct one never a red test *)
+(* C07: a wrong or missing snapshot never yields a green test; a test whose snapshots all hold is
+   never red - except through a site that the program compares with different values (one == snapshot
+   cannot hold for both; with fix approved it answers for the value it is going to have) *)
 C07 == \A F \in Fs : LET R == Run(srcs, prog, F) IN
          \A t \in DOMAIN prog :
             LET wrong == \E p \in Exec(R) : /\ p[1] = t
-                           /\ \/ ResAt(R, p) = "TE"
-                              \/ StmtAt(p).op # "none" /\ (~srcs[StmtAt(p).site].def \/ ~HoldsStmt(StmtAt(p), srcs[StmtAt(p).site]))
-            IN wrong <=> R.tests[t].failed
+                           /\ \/ ResAt(R, p) \in {"TE", "UE"}
+                              \/ StmtAt(p).op \notin {"none", "chg"} /\ (~srcs[StmtAt(p).site].def \/ ~HoldsStmt(StmtAt(p), srcs[StmtAt(p).site]))
+                contra == \E p \in Exec(R) : p[1] = t /\ Contradictory(R, StmtAt(p).site)
+            IN /\ wrong => R.tests[t].failed
+               /\ (R.tests[t].failed /\ ~contra) => wrong
 (* C06: without flags every comparison answers like the plain value; a second operation raises *)
 C06 == LET R == Run(srcs, prog, {}) IN
          \A p \in Exec(R) : LET s == StmtAt(p) IN
             IF ExpectTE(R, p) THEN ResAt(R, p) = "TE"
+            ELSE IF s.op = "chg" THEN ResAt(R, p) = "UE"     \* C14: a changed argument is a usage error
             ELSE (s.op # "none" /\ srcs[s.site].def /\ (KindOfStmtOp(s.op) # "dict" \/ HasKey(srcs[s.site].e, s.k)))
                     => ResAt(R, p) = B2S(HoldsStmt(s, srcs[s.site]))
 (* C05 *)
@@ -160,7 +175,7 @@ C04inert == Run(srcs, prog, {}).srcs = srcs
 C08all == LET R1 == Run(srcs, prog, Cats) R2 == Run(R1.srcs, prog, {}) IN
             (\A i \in DOMAIN srcs : ~Contradictory(R1, i)) =>
                /\ AllPending(R2) = {}
-               /\ (~R2.rcfail \/ \E p \in Exec(R2) : ResAt(R2, p) = "TE")    \* a test that raises by itself stays red
+               /\ (~R2.rcfail \/ \E p \in Exec(R2) : ResAt(R2, p) \in {"TE", "UE"})    \* a test that raises by itself stays red
 C08same == \A F \in Fs : LET R1 == Run(srcs, prog, F) IN Run(R1.srcs, prog, F).srcs = R1.srcs
 (* C09: approving one pending category per run, in any order, until nothing is pending *)
 RECURSIVE Finals(_, _)
@@ -196,6 +211,7 @@ OneRunS(ss, p, F, imp) ==
    pending |-> [i \in DOMAIN ss |-> CatSeq(R.pending[i])],
    srcs |-> R.srcs]
 OneRun(p, F, imp) == OneRunS(srcs, p, F, imp)
+HasChg(p) == \E t \in DOMAIN p : \E j \in DOMAIN p[t] : p[t][j].op = "chg"
 \* a history of sessions: Fseq[k] is approved in session k; each session starts from what the previous one wrote
 ChainFrom(ss, p, Fseq, imp) ==
   LET st[k \in 0..Len(Fseq)] == IF k = 0 THEN ss ELSE SessionE(st[k-1], p, Fseq[k], Fseq[k], IF imp THEN DOMAIN ss ELSE {}).srcs
@@ -217,27 +233,27 @@ RECURSIVE FinalAllP(_, _, _)
 FinalAllP(ss, p, fuel) == LET P == AllPending(Run(ss, p, {})) IN
    IF P = {} \/ fuel = 0 THEN ss ELSE FinalAllP(Run(ss, p, P).srcs, p, fuel - 1)
 ProgSeq == SetToSeq(Progs(ops))
-Emit == Mode = "emit" =>
+Emit == (Mode = "emit" /\ runs = 1) =>
   LET ps == ProgSeq
-      sel == {n \in 1..Len(ps) : (n + GroupId) % Stride = Offset % Stride}
+      sel == {n \in 1..Len(ps) : (n + GroupId) % Stride = Offset % Stride /\ ChgFits(srcs, ps[n])}
       cases == [n \in sel |-> [prog |-> ps[n],
-                               runs |-> [f \in 1..Len(FsSeq) |-> OneRun(ps[n], FsSeq[f], (n + f) % 2 = 0)]]]
+                               runs |-> [f \in 1..Len(FsSeq) |-> OneRun(ps[n], FsSeq[f], (n + f) % 2 = 0 /\ ~HasChg(ps[n]))]]]
   IN JsonSerialize(IOEnv.OUT_DIR \o "/group_" \o ToString(GroupId) \o ".json",
                    [ops |-> ops, srcs |-> srcs, cases |-> SetToSeq({cases[n] : n \in sel})])
 \* histories of identical sessions (C08): <<F, F>> for every F and <<Cats, {}>>
-EmitChain8 == Mode = "chain8" =>
+EmitChain8 == (Mode = "chain8" /\ runs = 1) =>
   LET ps == ProgSeq
-      sel == {n \in 1..Len(ps) : (n + GroupId) % Stride = Offset % Stride}
+      sel == {n \in 1..Len(ps) : (n + GroupId) % Stride = Offset % Stride /\ ChgFits(srcs, ps[n])}
       cases == [n \in sel |-> [prog |-> ps[n],
                  chains |-> [f \in 1..(Len(FsSeq) + 1) |->
-                     IF f <= Len(FsSeq) THEN ChainFrom(srcs, ps[n], <<FsSeq[f], FsSeq[f]>>, (n + f) % 2 = 0)
-                     ELSE ChainFrom(srcs, ps[n], <<Cats, {}>>, n % 2 = 0)]]]
+                     IF f <= Len(FsSeq) THEN ChainFrom(srcs, ps[n], <<FsSeq[f], FsSeq[f]>>, (n + f) % 2 = 0 /\ ~HasChg(ps[n]))
+                     ELSE ChainFrom(srcs, ps[n], <<Cats, {}>>, n % 2 = 0 /\ ~HasChg(ps[n]))]]]
   IN JsonSerialize(IOEnv.OUT_DIR \o "/group_" \o ToString(GroupId) \o ".json",
                    [ops |-> ops, srcs |-> srcs, cases |-> SetToSeq({cases[n] : n \in sel})])
 \* orders of approval (C09): programs with at least two pending categories
-EmitChain9 == Mode = "chain9" =>
+EmitChain9 == (Mode = "chain9" /\ runs = 1) =>
   LET ps == ProgSeq
-      sel == {n \in 1..Len(ps) : (n + GroupId) % Stride = Offset % Stride
+      sel == {n \in 1..Len(ps) : (n + GroupId) % Stride = Offset % Stride /\ ChgFits(srcs, ps[n])
                                    /\ Cardinality(AllPending(Run(srcs, ps[n], {}))) >= 2}
       cases == [n \in sel |-> [prog |-> ps[n],
                  confluent |-> FinalsP(srcs, ps[n], Fuel) = {FinalAllP(srcs, ps[n], Fuel)},
